@@ -107,11 +107,18 @@ func c03Kinds(destPort int) []c03Kind {
 	}
 }
 
+// c03ExtraCfg, when set, is applied to every node's configuration by c03Mesh.
+var c03ExtraCfg func(i int, c *config.Config)
+
 // c03Mesh: N0 (ingress) - [N1 transit] - exit with every tunnel kind enabled on the exit.
 func c03Mesh(t testing.TB, n int, dest *mkDest, allowed string) (*mkMesh, error) {
 	spec := mkChain(n)
 	exit := n - 1
+	extra := c03ExtraCfg
 	spec.Cfg = func(i int, c *config.Config) {
+		if extra != nil {
+			extra(i, c)
+		}
 		c.Connections.IdleThreshold = 30 * time.Second
 		c.FileTransfer.Enabled = true
 		c.FileTransfer.AllowedPaths = []string{allowed}
@@ -251,6 +258,7 @@ func TestVerif_C03(t *testing.T) {
 	c03Initiator(t, r, work)
 	c03MeshPairs(t, r, work)
 	c03TransitOriginates(t, r, work)
+	c03StreamLimit(t, r, work)
 	r.Require("responder_acks_with_matching_key", 20)
 	r.Require("degenerate_keys_refused", 20)
 	r.Require("mesh_tunnels_with_paired_keys", 5)
@@ -846,5 +854,151 @@ func c03TransitOriginates(t *testing.T, r *verifkit.R, work string) {
 		r.Add("transit_originates_relayed_tunnels_ok", okRelayed)
 		r.Add("mesh_tunnels_with_paired_keys", paired)
 		r.Eval(fmt.Sprintf("transit-originates/%d/%d/%d", ci, rounds, paired), held.Load() > 0 && paired >= 2)
+	})
+}
+
+
+// ---------------------------------------------------------------- opens refused at the stream limit
+//
+// An ingress at limits.max_streams_total refuses a further open locally, but the STREAM_OPEN for
+// it has already left (the agent sends before it looks at the result), so the exit keys that
+// request and acknowledges it. That acknowledgement is held back at the exit's write hook until
+// the ingress has a free slot again and another open is pending, whose own acknowledgement is
+// held even longer. Whatever the refused request's acknowledgement meets at the ingress, the next
+// tunnel's two ends must agree on a key of their own. Oracle: no key fingerprint is ever derived
+// by an initiator alone, the new tunnel carries its bytes, and the tunnels opened before keep
+// working.
+func c03StreamLimit(t *testing.T, r *verifkit.R, work string) {
+	r.Cases("stream-limit", r.N(3, 24), func(ci int, rng *verifkit.Rand) {
+		dest, err := mkStartDest()
+		if err != nil {
+			r.Inconclusive(err.Error())
+			return
+		}
+		defer dest.close()
+		tap := mkInstallTap()
+		defer tap.close()
+		ct := mkInstallCryptoTap(false)
+		defer ct.close()
+		limit := rng.Range(2, 4)
+		c03ExtraCfg = func(i int, c *config.Config) {
+			if i == 0 {
+				c.Limits.MaxStreamsTotal = limit
+				c.Limits.MaxStreamsPerPeer = limit
+			}
+		}
+		m, err := c03Mesh(t, 3, dest, work+"/**")
+		c03ExtraCfg = nil
+		if err != nil {
+			r.Inconclusive("mesh did not come up: " + err.Error())
+			return
+		}
+		defer m.stop()
+		exit := m.nodes[2].a
+		base := uint64(ci)<<20 | 0x4000
+		var held []*mkHeld
+		for i := 0; i < limit; i++ {
+			p := mkTunnelPlan{ID: base + uint64(i), Ingress: 0, Via: "tcp", Dest: fmt.Sprintf("127.1.11.%d:%d", 1+i, dest.port), C2S: 1 << 20, S2C: 400, Mode: mkModeOrderly}
+			h, err := mkOpenHeld(m, p)
+			if err != nil {
+				r.Inconclusive("stream-limit: could not fill the ingress up to its limit: " + err.Error())
+				for _, x := range held {
+					x.close()
+				}
+				return
+			}
+			held = append(held, h)
+		}
+		// from now on: the 1st acknowledgement the exit writes is held 300 ms, the 2nd 900 ms
+		var acks atomic.Int64
+		tap.mu.Lock()
+		tap.onPayload = func(ev *mkFrameEv, payload []byte) {
+			if ev.Write && ev.Local == exit.ID() && ev.Type == protocol.FrameStreamOpenAck {
+				switch acks.Add(1) {
+				case 1:
+					time.Sleep(300 * time.Millisecond)
+				case 2:
+					time.Sleep(900 * time.Millisecond)
+				}
+			}
+		}
+		tap.mu.Unlock()
+		// one open too many: refused locally
+		refused := mkRunTunnel(m, mkTunnelPlan{ID: base + 0x10, Ingress: 0, Via: "tcp", Dest: fmt.Sprintf("127.1.11.20:%d", dest.port), C2S: 50, S2C: 50, Mode: mkModeOrderly}, 3*time.Second)
+		if refused.DialErr == "" {
+			r.Add("stream_limit_extra_open_not_refused", 1)
+		} else {
+			r.Add("stream_limit_opens_refused_locally", 1)
+		}
+		time.Sleep(30 * time.Millisecond)
+		held[0].close() // a slot frees up
+		held = held[1:]
+		time.Sleep(30 * time.Millisecond)
+		next := mkTunnelPlan{ID: base + 0x20, Ingress: 0, Via: "tcp", Dest: fmt.Sprintf("127.1.11.30:%d", dest.port), C2S: 3000, S2C: 3000, Mode: mkModeOrderly, Chunk: 500}
+		cs := mkRunTunnel(m, next, 10*time.Second)
+		ss := dest.side(next.ID)
+		if !(cs.DialErr == "" && cs.Got == next.S2C && cs.BadAt < 0 && ss != nil && ss.Got == next.C2S && ss.BadAt < 0) {
+			srv := int64(-1)
+			if ss != nil {
+				srv = ss.Got
+			}
+			r.Violation("stream-limit:next-tunnel-did-not-carry-its-bytes", "stream-limit", ci,
+				fmt.Sprintf("ingress limit %d: after an open was refused at the limit and a slot freed up, the next tunnel failed: dial=%q s2c=%d/%d c2s=%d/%d rerr=%q werr=%q (the refused request's acknowledgement was still in flight)", limit, cs.DialErr, cs.Got, next.S2C, srv, next.C2S, cs.ReadErr, cs.WriteErr), nil)
+		} else {
+			r.Add("stream_limit_next_tunnel_ok", 1)
+		}
+		for _, h := range held { // tunnels opened before still work
+			before := h.off
+			h.poke(700)
+			var got int64 = -1
+			for i := 0; i < 200; i++ {
+				if s := dest.side(h.plan.ID); s != nil {
+					got = s.Got
+					if got >= h.off || s.BadAt >= 0 {
+						break
+					}
+				}
+				time.Sleep(10 * time.Millisecond)
+			}
+			if s := dest.side(h.plan.ID); h.off != before+700 || s == nil || s.Got < h.off || s.BadAt >= 0 {
+				r.Violation("stream-limit:earlier-tunnel-disturbed", "stream-limit", ci, fmt.Sprintf("a tunnel opened before the refused open no longer carries bytes: wrote %d, destination has %d", h.off, got), nil)
+			}
+			h.close()
+		}
+		ct.mu.Lock()
+		type pair struct{ ini, rsp int }
+		per := map[[8]byte]*pair{}
+		for _, e := range ct.derived {
+			p := per[e.FP]
+			if p == nil {
+				p = &pair{}
+				per[e.FP] = p
+			}
+			if e.Initiator {
+				p.ini++
+			} else {
+				p.rsp++
+			}
+		}
+		ct.mu.Unlock()
+		paired, exitOnly := 0, 0
+		for fp, p := range per {
+			switch {
+			case p.ini == 1 && p.rsp == 1:
+				paired++
+			case p.ini == 0 && p.rsp == 1:
+				exitOnly++ // the exit keyed the open the ingress had refused locally: nobody uses that key
+			case p.rsp == 0:
+				r.Violation("stream-limit:initiator-key-held-by-no-responder", "stream-limit", ci, fmt.Sprintf("session key %x was derived %d time(s) by an initiator and by no responder: a tunnel was keyed from an acknowledgement that belongs to another request", fp, p.ini), nil)
+			default:
+				r.Violation("stream-limit:key-shared-across-tunnels", "stream-limit", ci, fmt.Sprintf("session key %x derived %d times as initiator and %d times as responder", fp, p.ini, p.rsp), nil)
+			}
+		}
+		if exitOnly > 1 {
+			r.Violation("stream-limit:exit-keys-without-initiator", "stream-limit", ci, fmt.Sprintf("%d keys were derived by the exit alone; one refused open explains one", exitOnly), nil)
+		}
+		r.Add("mesh_tunnels_with_paired_keys", paired)
+		r.Add("stream_limit_acks_held_back", int(min(acks.Load(), 2)))
+		r.Eval(fmt.Sprintf("stream-limit/%d/%d/%d", ci, limit, paired), refused.DialErr != "" && paired >= limit)
 	})
 }
